@@ -121,6 +121,15 @@ def run(prog, ctx):
                 bad.append((n, "`%s` uses the whole level vector" % src(par)[:90]))
         if rebound:
             bad.append((rebound[0], "the level vector `%s` is re-bound inside the function" % LV))
+        if name == "get_subtraction_value":
+            # the component level shapes the subtraction value only through modify_according_to_levelvec (whose clamp and raise D6 checks
+            # for monotone growth): the dispatcher itself neither branches on nor computes with the level vector
+            for n in ast.walk(fi.node):
+                if isinstance(n, ast.Name) and n.id == LV and isinstance(n.ctx, ast.Load):
+                    par = getattr(n, "_parent", None)
+                    if isinstance(par, ast.Subscript) and par.value is n:
+                        bad.append((n, "`%s` is read directly in get_subtraction_value (line %d): a level test that bypasses "
+                                       "modify_according_to_levelvec can make a point disappear when the component level grows" % (src(par), n.lineno)))
         if len(idx_names) > 1:
             bad.append((fi.node, "the level vector is indexed with different variables %s" % sorted(idx_names)))
         dim_param[name] = sorted(idx_names)[0] if idx_names else None
